@@ -4,6 +4,8 @@ import (
 	"bytes"
 	"io"
 	"io/ioutil"
+	"strconv"
+	"strings"
 	"sync"
 	"time"
 
@@ -29,6 +31,11 @@ type BlockChainFSM struct {
 	blockStore      *blockchain.BlockStore
 	mut             sync.Mutex
 	onUpdateState   func(s *state.State)
+
+	// Height recorded in the snapshot raft restored last (its own newest snapshot at start, or the leader's
+	// when this node's next entries were already compacted away).  A snapshot carries no blocks: the entries
+	// that follow it continue a chain of that height.  Restore and Apply both run on raft's FSM goroutine.
+	restoredHeight int64
 }
 
 func newBlockChainFSM(conf *config, mempool types.TxPool, blockStore *blockchain.BlockStore, state *state.State) *BlockChainFSM {
@@ -56,6 +63,15 @@ func (b *BlockChainFSM) Apply(l *raft.Log) interface{} {
 	partSet := types.NewPartSetFromData(l.Data, b.conf.blockPartSize)
 
 	log.Debug("FSM.Apply start apply", zap.Int64("height", block.Height))
+	if b.blockStore.Height() < b.restoredHeight {
+		// The entries between our last block and the restored snapshot were never delivered (the blocks have to
+		// come from the block sync).  The height test below cannot tell the missing block from a duplicate
+		// proposal of the same height that a new leader appended behind the snapshot: applying that one would
+		// fork this node from the cluster.
+		log.Warn("FSM.Apply, block store is behind the restored raft snapshot, entry skipped",
+			zap.Int64("height", block.Height), zap.Int64("store", b.blockStore.Height()), zap.Int64("snapshot", b.restoredHeight))
+		return nil
+	}
 	if b.blockStore.Height()+1 != block.Height {
 		log.Warn("FSM.Apply, found dup block", zap.Int64("height", block.Height))
 		return nil
@@ -118,7 +134,15 @@ func (b *BlockChainFSM) Snapshot() (raft.FSMSnapshot, error) {
 
 func (b *BlockChainFSM) Restore(r io.ReadCloser) error {
 
+	// BlockChainSnapshot.Persist writes "<height>-<hash>"
+	data, err := ioutil.ReadAll(io.LimitReader(r, 1<<16))
 	io.Copy(ioutil.Discard, r)
+	if err != nil {
+		return nil
+	}
+	if h, err := strconv.ParseInt(strings.SplitN(string(data), "-", 2)[0], 10, 64); err == nil && h > 0 {
+		b.restoredHeight = h
+	}
 	return nil
 }
 
